@@ -106,6 +106,8 @@ def nontrivial(case):
 
 
 def tally(rep, case, impl_res, ans):
+    if case.get('spec'):
+        rep.count('positions_dtype:' + (case['spec'].get('dtypes') or {}).get('channel_positions', 'float64'))
     rep.count('label:%r' % case.get('label', ''))
     if case.get('reexport'):
         rep.count('re-export over a stale output directory')
@@ -136,6 +138,8 @@ def gen(tier, rng):
             spec['text_files'] = {'cluster_KSLabel.tsv': 'cluster_id\tKSLabel\n0\tgood\n1\tmua\n'}
         if i % 7 == 3:
             spec['vec2d'] = True
+        if i % 3 == 1:     # probe coordinates stored as integers
+            spec['dtypes'] = dict(spec.get('dtypes') or {}, channel_positions=['int32', 'uint32', 'int64', 'uint16'][(i // 3) % 4])
         # labels incl. ones that occur inside ALF file names or look like extensions
         label = ['', 'probe00', '', 'a', 'raw', '', 'amps', 'npy', 'spikes', 'x.y', 'clusters'][i % 11]
         yield dict(p=PID, spec=spec, factor=[1, 2.5][i % 2], label=label, temp_wh=(i % 4 == 0), rs=i,
